@@ -142,7 +142,7 @@ def main():
     thorough = common.tier() == "thorough"
     ps = gen.regex_programs(thorough, common.seed())
     from ..rtc import run as rrun
-    outs = rrun.run(ps, [["-O1", "-feof-support"]], [regex_contract.install], time_limit=10)
+    outs = rrun.run(ps, [["-O1", "-feof-support"]], [regex_contract.install], time_limit=60)
     n = 0
     evals = 0
     for o in outs:
